@@ -5,7 +5,9 @@ import contracts.omen_loader as oml
 
 PROP = Prop(
     'C11', "Trainer, scorer and guesser agree on every string's OMEN level",
-    functions=[ol.EV + ':find_omen_level', ol.SC + '.parse', oml.IO + ':_load_ngrams#ip', oml.IO + ':_load_ngrams#cp', oml.SC + '._load_omen',
+    functions=[ol.EV + ':find_omen_level', ol.SC + '.parse', oml.IO + ':_load_ngrams#ip', oml.IO + ':_load_ngrams#cp', oml.SC + '._load_omen', oml.IO + ':_load_length',
+               # the n-gram size the guesser works with is the one the trainer saved
+               (oml.IO + ':_load_config', oml.install_config), (oml.OFO + ':_save_config', oml.install_config),
                # the trainer writes one IP.level line per table entry and one CP.level line per transition (statement slices of save_omen_rules_to_disk)
                (oml.OFO + ':save_omen_rules_to_disk#ip_writer', oml.install_writer), (oml.OFO + ':save_omen_rules_to_disk#cp_writer', oml.install_writer)],
     lemmas=lambda: ol.agree_lemmas() + oml.lemmas(),
